@@ -178,14 +178,19 @@ def main():
                 continue
             # refuted: replay natively before reporting
             d0, loc0 = bad[0]
+            if replayed >= 3:
+                # enough reproduced evidence; remaining refutations are listed unreplayed
+                inconclusive.append((j.name, "refuted (%s at %s); not replayed (cap)" % (d0, loc0)))
+                continue
+            if not r.playback:
+                # the direct CBMC run carries no trace: obtain the concrete playback test from kani-driver
+                core.playback_for(ws, features, r)
+                bad = fail_desc(r, j.allow) or bad
+                d0, loc0 = bad[0]
             pb = [p for p in r.playback if p[0] != "cover" and p[1] == d0] or \
                  [p for p in r.playback if p[0] != "cover"]
             if not pb:
                 inconclusive.append((j.name, "refuted (%s) but no playback test emitted" % d0))
-                continue
-            if replayed >= 3:
-                # enough reproduced evidence; remaining refutations are listed unreplayed
-                inconclusive.append((j.name, "refuted (%s at %s); not replayed (cap)" % (d0, loc0)))
                 continue
             _, cdesc, tname, tsrc = pb[0]
             replayed += 1
